@@ -35,6 +35,11 @@ CHECKS = {
          "out must be closed, and a retry on the same client must return the complete listing.",
          "The transport is a simulation of Graph (paging via @odata.nextLink, path and id addressing); 404 on the folder lookup is treated as a legitimate answer; fault kinds are those listed in the property "
          "(timeouts/partial reads are not modelled).", "DESIGN.md §4 C18"),
+ "C17": ("exploration", "grammar-based Hypothesis generation of HTML with class-tagged tokens, extracted through 6 wrappers; token-sequence oracle",
+         "Thousands of documents from a grammar of visible blocks interleaved with removable elements (all 7 kinds + comments) holding hostile content (void/self-closing/unclosed children, "
+         "stray end tags, nested removable elements, CDATA, JS/CSS text with markup, mixed case) are extracted as .html, .mhtml (3 transfer encodings), EPUB chapter and MSG body; every hidden token "
+         "must be absent and every visible token present exactly once in order.",
+         "Token-level oracle (non-token characters are not judged); EPUB gets only the well-formed-XML subset; unterminated comments inside removed elements are outside the grammar.", "DESIGN.md §4 C17"),
 }
 NOT_YET = {}
 
